@@ -60,7 +60,7 @@ func pretouchTypeVM(_vt reflect.Type, opts option.CompileOptions, v uint8) (map[
 
 	/* find or compile */
 	vt := rt.UnpackType(_vt)
-	if val := vars.GetProgram(vt); val != nil {
+	if val := vars.GetProgram(vt, v == 1); val != nil {
 		return nil, nil
 	} else if _, err := vars.ComputeProgram(vt, encoder, v == 1); err == nil {
 		return compiler.rec, nil
